@@ -111,7 +111,12 @@ def gen_cases(rng: random.Random, n: int, tier: str):
             syms = rng.sample(TARGETS, rng.randint(1, 3))
             rm.append([syms, k])
         rs = [rng.choice(TARGETS), gen_expr(rng, TARGETS + LEAVES)]
-        out.append({"kind": "prog", "ssa": ssa, "stmts": stmts, "rm": rm, "reassign": rs, "seed": rng.randrange(1 << 30)})
+        sub_x = rng.choice(LEAVES + TARGETS[:2])
+        # an assigned symbol can only be renamed (substituting an expression for a left-hand side is not a
+        # program edit); a leaf may be replaced by any expression over fresh symbols
+        sub_t = "Q1" if sub_x in TARGETS else rng.choice(["Q1", "(Q1 + 2*Q2)", "Q1*Q1", "7"])
+        out.append({"kind": "prog", "ssa": ssa, "stmts": stmts, "rm": rm, "reassign": rs, "subs": [sub_x, sub_t],
+                    "seed": rng.randrange(1 << 30)})
     return out
 
 
@@ -498,6 +503,50 @@ def run_case(case, drv):
                 k.append(f"reassign({x}): model {m} code {code_w}")
     except Exception as ex:
         mon.append({"cls": "internal-error", "what": f"reassign({x!r}) raised {type(ex).__name__}: {ex}"})
+
+    # ---- subs (single symbol), assignment-only programs
+    if case.get("subs") and not has_ode:
+        x, t = case["subs"]
+        try:
+            res = list(ss.subs({x: t}))
+        except Exception as ex:
+            mon.append({"cls": "internal-error", "what": f"subs({{{x!r}: {t!r}}}) raised {type(ex).__name__}: {ex}"})
+            res = None
+        if res is not None:
+            tags.append("q:subs")
+            te = sympy.sympify(t)
+            assigned = {str(s.symbol) for s in ss}
+            leaf_case = x not in assigned and not ({str(z) for z in te.free_symbols} & assigned)
+            if len(res) != len(ss):
+                mon.append({"cls": "subs", "what": f"subs({{{x!r}: {t!r}}}) changed the number of statements"})
+            elif leaf_case:
+                tags.append("subs-leaf")
+                # sequential-edit semantics: run(subs(ss))(env) == run(ss)(env[x := t(env)]) on every symbol but x
+                allsyms = sorted(set(sym_objs) | te.free_symbols | {sympy.Symbol(x)}, key=str)
+                env = rand_env(rng, allsyms)
+                env2 = dict(env)
+                env2[sympy.Symbol(x)] = te.xreplace(env)
+                try:
+                    v1, _ = run_py(res, env)
+                    v2, _ = run_py(list(ss), env2)
+                    for a, b in zip(v1, v2):
+                        if not same_value(a, b):
+                            mon.append({"cls": "subs", "what": f"subs({{{x!r}: {t!r}}}) is not the sequential edit: a statement "
+                                        f"evaluates to {a} instead of {b}"})
+                            break
+                except Exception:
+                    tags.append("subs-eval-skipped")
+            if drv is not None:
+                m = drv.ask(["subs", w, x, exprconv.to_sexp(te)])
+                ok = len(m) == len(res)
+                if ok:
+                    for ms, rs_ in zip(m, res):
+                        if ms[0] != "=" or ms[1] != str(rs_.symbol) or not exprconv.equal_at_points(
+                                exprconv.from_sexp(ms[2]), exprconv.to_sympy(rs_.expression), rng):
+                            ok = False
+                            break
+                if not ok:
+                    k.append(f"subs({x},{t}): model {m} code {_norm(wire(res))}")
 
     return {"k": k, "mon": mon, "tags": tags, "nontrivial": nontrivial}
 
